@@ -78,7 +78,9 @@ def gen_records(rng, bt, nrec, bad_kind=None, with_unknown=True):
         for _ in range(int(rng.integers(0, 4))):
             r = list(recs[int(rng.integers(len(recs)))]) if recs else [chroms[0][0], 0, chroms[0][0], 0, "valid"]
             side = int(rng.integers(2))
-            r[0 if side == 0 else 2] = ["chrUnknown", "chrM_other"][int(rng.integers(2))]
+            r[0 if side == 0 else 2] = ["chrUnknown", "chrM_other", "!"][int(rng.integers(3))]
+            if rng.random() < 0.35:
+                r[1 if side == 0 else 3] = -1        # an unmapped mate as pairtools writes it: chrom "!", position 0 (one-based)
             r[4] = "unknown"
             at = int(rng.integers(len(recs) + 1))
             for _rep in range(int(rng.integers(1, 4))):      # runs of records with the same unlisted mate
